@@ -94,6 +94,11 @@ fn tags(spec: &Spec, recent: &[f64], hist: &[f64]) -> Vec<String> {
     t
 }
 
+thread_local! {
+    /// a fact about the driver family currently running, attached to every violation it produces
+    static DRIVER_TAG: std::cell::Cell<Option<&'static str>> = const { std::cell::Cell::new(None) };
+}
+
 /// one update + bound check; returns Prune on violation
 fn step(spec: &Spec, s: &mut S, x: f64, hist: &[f64], st: &mut Stats, sink: &Sink) -> Step {
     s.v.update(x);
@@ -109,7 +114,11 @@ fn step(spec: &Spec, s: &mut S, x: f64, hist: &[f64], st: &mut Stats, sink: &Sin
             let (lo, hi) = range(spec);
             let excess = lo.map(|l| l - o).unwrap_or(0.0).max(hi.map(|h| o - h).unwrap_or(0.0));
             let mag = lo.map(|l| l.abs()).unwrap_or(0.0).max(hi.map(|h| h.abs()).unwrap_or(0.0)).max(1e-300);
-            sink.push(Violation::new("C07", spec, "range", "f64", hist, why).tags(&tags(spec, &s.recent, hist)).tag_if2(excess.is_finite() && excess <= 1e-9 * mag, "rounding_level_excess"));
+            let mut v = Violation::new("C07", spec, "range", "f64", hist, why).tags(&tags(spec, &s.recent, hist)).tag_if2(excess.is_finite() && excess <= 1e-9 * mag, "rounding_level_excess");
+            if let Some(t) = DRIVER_TAG.with(|c| c.get()) {
+                v = v.tag(t);
+            }
+            sink.push(v);
             return Step::Prune;
         }
         s.prev = Some(o);
@@ -179,6 +188,31 @@ fn adversarial(spec: &Spec, pdepth: usize, st: &mut Stats, sink: &Sink) {
         },
         &mut |hist, msg| sink.push(Violation::new("C07", spec, "panicked", "f64", hist, msg)),
     );
+}
+
+/// values one or two ulps apart: the worst conditioning a window can have
+fn ulp_neighbours(spec: &Spec, depth: usize, st: &mut Stats, sink: &Sink) {
+    let e = f64::EPSILON;
+    let alpha = [1.0, 1.0 + e, 1.0 + 2.0 * e, 1.0 - e / 2.0];
+    let root = match guard(|| S { v: build::<f64>(spec), prev: None, recent: vec![] }) {
+        Ok(r) => r,
+        Err(_) => return,
+    };
+    st.configs += 1;
+    tree::<f64, S>(
+        &root,
+        &alpha,
+        depth,
+        st,
+        &mut |s, hist, st| {
+            DRIVER_TAG.with(|c| c.set(Some("values_one_ulp_apart")));
+            let r = step(spec, s, *hist.last().unwrap(), hist, st, sink);
+            DRIVER_TAG.with(|c| c.set(None));
+            r
+        },
+        &mut |hist, msg| sink.push(Violation::new("C07", spec, "panicked", "f64", hist, msg).tag("values_one_ulp_apart")),
+    );
+    DRIVER_TAG.with(|c| c.set(None));
 }
 
 fn closed(spec: &Spec, cap: usize, st: &mut Stats, sink: &Sink) {
@@ -337,6 +371,9 @@ pub fn run(ctx: &Ctx) -> CheckOutput {
             let sink = Sink::new();
             adversarial(&spec, pdepth, &mut st, &sink);
             closed(&spec, cap, &mut st, &sink);
+            if spec.n <= 5 {
+                ulp_neighbours(&spec, (spec.n + 3).min(if quick { 6 } else { 8 }), &mut st, &sink);
+            }
             JobOut { stats: st, viols: sink.take(), samples: vec![json!({"view":spec.name(),"drivers":format!("every prefix in F7^<={} x 12 tails (flat x6, ramps, steps, linear) of length N+2; CLOSURE over Z3", pdepth)})] }
         }));
     }
